@@ -98,9 +98,11 @@ def timelineLive (durs : List Nat) (R ts : Nat) (tcF : Nat) (tsbd : Nat) (fuel :
   let drift : Int := (R : Int) - (durs.sum : Int)
   tlLoop durs drift (r.2.1 : Int) ((tsbd * ts : Nat) : Int) fuel 0 (r.1 - 1) SNode.fresh []
 
-/-- VOD timeline: from segment 1 at time 0 for the reference duration, no drift -/
-def timelineVod (durs : List Nat) (R : Nat) (fuel : Nat) : List SNode :=
-  tlLoop durs 0 0 (R : Int) fuel 0 0 SNode.fresh []
+/-- VOD timeline: from segment 1 at time 0, no drift, until the track's own media
+duration (`end = self.mediaDuration`, after the `fix:` for D18; before it the loop ran
+to the reference duration and could wrap) -/
+def timelineVod (durs : List Nat) (fuel : Nat) : List SNode :=
+  tlLoop durs 0 0 (durs.sum : Int) fuel 0 0 SNode.fresh []
 
 /-- DASH meaning of a `SegmentTimeline`: the list of `(t, d)` of every segment;
 `t` continues from the previous end when absent -/
